@@ -4,6 +4,7 @@ CONSTANTS
   Blocks = {"a", "b", "c"}
   TilesPerBlock = 1
   Cap = 2
+  Variant = "code"
   MaxOps = 2
 INVARIANT InvMutex
 INVARIANT InvBounded
